@@ -201,7 +201,7 @@ func runC05(args []string) error {
 			d := make([]byte, sz)
 			rng.Read(d)
 			if k%2 == 1 {
-				d = genContent(rng, sz, rng.Intn(6), s) // low-entropy, duplicate-slice, constant and periodic content
+				d = genContent(rng, sz, rng.Intn(7), s) // low-entropy, duplicate-slice, constant and periodic content
 			}
 			names = append(names, name)
 			datas = append(datas, d)
